@@ -179,11 +179,19 @@ def corrupt(tr, meta, rng):
     return out
 
 
-def gen(wd, fams, ninst, accepts, first, chain, two):
-    acc = "{" + ",".join(f"<<{k},{c}>>" for k, c in sorted(accepts)) + "}"
-    g = lib.run_tlc_mc("HeapGen", {"Accepts": acc, "First": "{" + ",".join(map(str, sorted(first))) + "}", "Chain": "{" + ",".join(map(str, sorted(chain))) + "}"},
+def gen(wd, fams, ninst, accepts, first, chain, two, execpairs):
+    st = lambda ps: "{" + ",".join(f"<<{k},{c}>>" for k, c in sorted(ps)) + "}"
+    g = lib.run_tlc_mc("HeapGen", {"Accepts": st(accepts), "ExecPairs": st(execpairs), "First": "{" + ",".join(map(str, sorted(first))) + "}",
+                                   "Chain": "{" + ",".join(map(str, sorted(chain))) + "}"},
                        wd, constants={"NFam": len(fams), "NInst": ninst, "TwoStage": "TRUE" if two else "FALSE"}, constraints=["Emit"], timeout=3000)
     lib.require_ok(g, "HeapGen")
+    seen, uniq = set(), []
+    for j in g.json_lines:                      # TLC may evaluate the emitting constraint more than once for a terminal state
+        key = json.dumps(j, sort_keys=True)
+        if key not in seen:
+            seen.add(key)
+            uniq.append(j)
+    g.json_lines = uniq
     return g
 
 
@@ -218,13 +226,14 @@ def run(tier, seed):
     # ---------------- phase 1: every transform on every circuit family (single application)
     ninst1 = 1 if quick else 4
     all_pairs = {(k + 1, c + 1) for k in range(len(reg)) for c in range(len(fams))}
-    g1 = gen(lib.workdir("C18", "gen1"), fams, ninst1, all_pairs, range(1, len(reg) + 1), [], False)
+    exec_pairs = {(k, c) for k, c in all_pairs if (k + c) % 3 == 0} if quick else all_pairs
+    g1 = gen(lib.workdir("C18", "gen1"), fams, ninst1, all_pairs, range(1, len(reg) + 1), [], False, exec_pairs)
     runs.append(g1)
-    budget = 2.5 if quick else 10.0
+    budget = 6.0 if quick else 20.0
     too_slow = set()
     for j in g1.json_lines:
         h = j["hist"]
-        k = h[2]["k"]
+        k = next(e["k"] for e in h if e["e"] == "transform")
         if names[k - 1] in too_slow:
             continue
         tr, meta = run_history(h, reg, fams, seed, stats)
@@ -240,9 +249,9 @@ def run(tier, seed):
     # ---------------- phase 2: two transforms in a row (on the first output, and again on the original)
     chain_names = CHAIN_QUICK if quick else CHAIN_QUICK + CHAIN_MORE
     chain = [names.index(n) + 1 for n in chain_names if n in names]
-    fam2 = ["rot", "ctrl", "embed"] if quick else ["rot", "ctrl", "embed", "noncomm", "mcm", "bcast", "clifft", "toffoli"]
+    fam2 = ["rot", "ctrl", "embed"] if quick else ["rot", "ctrl", "embed", "noncomm", "mcm", "clifft"]
     acc2 = {(k, fams.index(f) + 1) for k in chain for f in fam2 if f in accepted.get(names[k - 1], ())}
-    g2 = gen(lib.workdir("C18", "gen2"), fams, 1 if quick else 3, acc2, chain, chain, True)
+    g2 = gen(lib.workdir("C18", "gen2"), fams, 1 if quick else 2, acc2, chain, chain, True, acc2)
     runs.append(g2)
     h2 = [j["hist"] for j in g2.json_lines]
     for h in h2:
@@ -262,7 +271,7 @@ def run(tier, seed):
             negs.append((len(batch), clause, i))
             batch.append(c)
     verd = {}
-    CH = 2500
+    CH = 6000
     for b0 in range(0, len(batch), CH):
         part = batch[b0:b0 + CH]
         wd = lib.workdir("C18", f"trace{b0}")
@@ -372,4 +381,4 @@ def run(tier, seed):
         "a tape's observable value = operations and measurements by value (class, repr, wires, data, operator hash), parameters, trainable "
         "indices, shots, recomputed hash, batch size; container / operator identity is recorded as mechanism only",
         "re-execution on default.qubit with a fixed device seed is deterministic for an unchanged tape",
-        "each transform is called with one minimal valid-argument recipe; circuits come from 19 seeded families"])
+        "each transform is called with one minimal valid-argument recipe; circuits come from %d seeded families" % len(R.FAMILIES)])
